@@ -263,3 +263,53 @@ func execCase(c Case) (res vt.Result) {
 
 func TestPropFilters(t *testing.T)   { vt.Check(t, "filters", genCase, execCase) }
 func TestReplayFilters(t *testing.T) { vt.Replay(t, "filters", execCase) }
+
+// ---------------------------------------------------------------------------
+// Probe of the catalogued defect D7: an indexed string (or string-array
+// element) equal to "" cannot be stored because the storage engine rejects the
+// empty key; the whole batch fails. The generators above never produce "" for
+// indexed strings (counted as excluded by construction); this fixed-shape probe
+// reports the defect as the known finding while it is present.
+
+func TestPropD7Probe(t *testing.T) {
+	rec := vt.R()
+	for _, kind := range []string{"string", "stringArray"} {
+		schema := models.IndexSchema{}
+		var doc model.Doc
+		if kind == "string" {
+			schema["s"] = models.IndexSchemaValue{Type: models.IndexTypeString, String: &models.IndexStringParameters{CaseSensitive: true}}
+			doc = model.Doc{"s": ""}
+		} else {
+			schema["tags"] = models.IndexSchemaValue{Type: models.IndexTypeStringArray, StringArray: &models.IndexStringArrayParameters{IndexStringParameters: models.IndexStringParameters{CaseSensitive: true}}}
+			doc = model.Doc{"tags": []string{"a", ""}}
+		}
+		dir, cleanup := drive.CaseDir()
+		s, err := drive.Open(filepath.Join(dir, "d.bbolt"), schema, 1<<20, cache.NewManager(-1))
+		if err != nil {
+			cleanup()
+			t.Fatal(err)
+		}
+		rec.Eval()
+		id := gen.IdPool(1)[0]
+		err = s.Insert([]model.Point{{Id: id, Doc: doc}})
+		if err != nil {
+			rec.Known("D7", "indexed empty string rejected: "+kind, err.Error())
+		} else {
+			// accepted: then it must be found
+			m := model.NewCollection(schema, 1<<20)
+			m.Insert([]model.Point{{Id: id, Doc: doc}})
+			var q models.Query
+			if kind == "string" {
+				q = models.Query{Property: "s", String: &models.SearchStringOptions{Value: "a", Operator: models.OperatorLessThan}}
+			} else {
+				q = models.Query{Property: "tags", StringArray: &models.SearchStringArrayOptions{Value: []string{""}, Operator: models.OperatorContainsAny}}
+			}
+			if _, err := runQueries(s, m, []models.Query{q}, "the D7 probe", map[string]bool{}); err != nil {
+				rec.Violation("d7probe", "", err.Error())
+				t.Errorf("%v", err)
+			}
+		}
+		s.Close()
+		cleanup()
+	}
+}
